@@ -310,6 +310,58 @@ def run(ctx):
       ctx.case(key=(name, repr(hist)), nontrivial=reuse)
     if not broken:
       traces.append({'events': ev, 'meta': {'algorithm': name, 'histories': len(chosen)}})
+  # the aggregators called directly (what a custom algorithm does): the caller's client updates are arguments of the round
+  # too - device arrays handed in stay readable and unchanged, and the same (updates, state) gives the same (mean, state)
+  import jax.numpy as jnp  # pylint: disable=g-import-not-at-top
+  from fedjax.aggregators import compression  # pylint: disable=g-import-not-at-top
+  akey = jax.random.PRNGKey(11 + ctx.seed)
+  makers = {'uniform': lambda: compression.uniform_stochastic_quantizer(4, akey),
+            'uniform_arith': lambda: compression.uniform_stochastic_quantizer(4, akey, 'arithmetic'),
+            'rotated': lambda: compression.rotated_uniform_stochastic_quantizer(4, akey),
+            'drive': lambda: compression.structured_drive_quantizer(akey),
+            'terngrad': lambda: compression.terngrad_quantizer(akey)}
+  for kind, mk in makers.items():
+    name = f'aggregator:{kind}'
+    intern_v = Interner()
+    ev = []
+    vals = [np.array([[rng.uniform(-3, 3) for _ in range(5)] for _ in range(3)]) for _ in range(3)]
+    for flavour in ('device', 'host', 'shared'):
+      tag = f'{name}#{flavour}'
+      try:
+        agg = mk()
+        if flavour == 'device':
+          upd = [{'w': jnp.asarray(v[0], jnp.float32), 'b': jnp.asarray(v[1:], jnp.float32)} for v in vals]
+        elif flavour == 'host':
+          upd = [{'w': np.asarray(v[0], np.float32), 'b': np.asarray(v[1:], np.float32)} for v in vals]
+        else:   # one update object listed for two clients
+          one = {'w': jnp.asarray(vals[0][0], jnp.float32), 'b': jnp.asarray(vals[0][1:], jnp.float32)}
+          upd = [one, {'w': jnp.asarray(vals[1][0], jnp.float32), 'b': jnp.asarray(vals[1][1:], jnp.float32)}, one]
+        weights = [2.0, 1.0, 3.0]
+        states = [agg.init()]
+
+        def observe():
+          for ui, u in enumerate(upd):
+            ev.append({'e': 'Observe', 'obj': f'{tag}:update{ui + 1}', 'fp': intern_v(fingerprint(u))})
+          for si, st_ in enumerate(states):
+            ev.append({'e': 'Observe', 'obj': f'{tag}:state{si + 1}', 'fp': intern_v(fingerprint(st_))})
+
+        observe()
+        for si in (0, 0, 1):
+          args = [(ids[k], upd[k], weights[k]) for k in range(3)]
+          if si == 1:
+            args = iter(args)     # the documented argument type is an Iterable
+          before = fingerprint(states[si]) + '|' + fingerprint(upd)
+          mean, nst = agg.apply(args, states[si])
+          states.append(nst)
+          ev.append({'e': 'Call', 'key': f'{name}:apply({flavour} updates and state {intern_v(before)})', 'out': intern_v(fingerprint(mean) + '|' + fingerprint(nst))})
+          observe()
+        ctx.case(key=(name, flavour), nontrivial=True)
+      except Exception as ex:  # pylint: disable=broad-except
+        ctx.violation(f'exception:{name}:{type(ex).__name__}', f'{name}: {type(ex).__name__}: {str(ex)[:200]} when the aggregator is applied again to the same {flavour} updates', replay={'aggregator': kind, 'flavour': flavour})
+        ev = None
+        break
+    if ev is not None:
+      traces.append({'events': ev, 'meta': {'algorithm': name, 'histories': 3}})
   # continuation in ANOTHER INTERPRETER (different PYTHONHASHSEED): the same calls must give the same outputs there
   import json  # pylint: disable=g-import-not-at-top
   import subprocess  # pylint: disable=g-import-not-at-top
